@@ -87,6 +87,11 @@ mod msgq {
             self.capacity.saturating_sub(self.len_bytes)
         }
 
+        #[cfg(librqbit_utp_verif)]
+        pub fn verif_len_bytes(&self) -> usize {
+            self.len_bytes
+        }
+
         #[cfg(test)]
         pub fn is_full(&self) -> bool {
             self.len_bytes >= self.capacity
@@ -444,6 +449,20 @@ impl UserRx {
     /// Is assembler empty
     pub fn assembler_empty(&self) -> bool {
         self.ooq.is_empty()
+    }
+
+    /// Verification hooks: read-only views of the buffer accounting.
+    #[cfg(librqbit_utp_verif)]
+    pub fn verif_user_bytes(&self) -> usize {
+        self.shared.locked.lock().queue.verif_len_bytes()
+    }
+    #[cfg(librqbit_utp_verif)]
+    pub fn verif_parked_bytes(&self) -> usize {
+        self.ooq.len_bytes
+    }
+    #[cfg(librqbit_utp_verif)]
+    pub fn verif_parked_packets(&self) -> usize {
+        self.ooq.len
     }
 
     /// How many packets does ooq have
